@@ -1,10 +1,13 @@
 """C19 — a generic instantiation enforces its own type arguments, whatever came before.
 Proof: coq/C19 (model of NewClassGenerated.resolveClass / ClassGeneric.Clone+GetProperty /
 the three typed-store paths; reference semantics without any shared cell; theorems over ALL
-histories).  Tie: histories (instantiations interleaved with typed member stores through three
-paths, and reads) are printed as scripts and run on the real interpreter in-process (one fresh
-VM per history); the Coq model and the Coq spec are evaluated on the same histories by
-vm_compute and compared with what the script printed."""
+histories).  Tie: histories (instantiations — also through factory functions, so that one `new` node
+runs several times, with a promoted constructor parameter, and without type arguments — interleaved with
+typed member stores through three paths, calls of methods with typed parameters, and reads) are printed
+as scripts and run on the real interpreter in-process (one fresh VM per history); the Coq model and the
+Coq spec are evaluated on the same histories by vm_compute and compared with what the script printed.
+Concurrently: groups of 3-4 histories are spawned as coroutines on ONE VM (std/spawn.go, shared class
+declarations) in a -race build; every history must observe what the model says it observes alone."""
 import itertools
 import json
 import subprocess
@@ -34,9 +37,19 @@ function tag($x) {
 
 # class tables: name -> (params, [(prop, declared type)]) ; declared type: "T"-style parameter name,
 # a concrete type, or None (untyped)
-BOX = ("Box", ["T"], [("v", "T"), ("n", "int"), ("u", None)])
-PAIR = ("Pair", ["K", "V"], [("k", "K"), ("w", "V"), ("k2", "K"), ("s", "string")])
-CELL = ("Cell", ["E"], [("e", "E"), ("a", "A")])
+# (name, type parameters, [(prop, declared type)], promoted constructor parameter or None).  Every class gets, per
+# property p of declared type t, a method put_p($x) { $this->p = $x } and a method chk_p(t $x) (a parameter declared
+# with the same type); a class with a promoted parameter q declares q through `__construct(public t $q)` only.
+BOX = ("Box", ["T"], [("v", "T"), ("n", "int"), ("u", None)], None)
+PAIR = ("Pair", ["K", "V"], [("k", "K"), ("w", "V"), ("k2", "K"), ("s", "string")], None)
+CELL = ("Cell", ["E"], [("e", "E"), ("a", "A")], None)
+PBOX = ("PBox", ["T"], [("v", "T"), ("n", "int")], "v")
+PPAIR = ("PPair", ["K", "V"], [("k", "K"), ("w", "V")], "w")
+
+
+def norm_cls(c):
+    c = tuple(c)
+    return c if len(c) == 4 else c + (None,)
 
 
 def matching_value(arg):
@@ -61,19 +74,52 @@ def php_val(v):
     return "null"
 
 
-def script(tbl, ops):
-    out = [FIXTURE]
-    for name, params, props in tbl:
+def class_decls(tbl):
+    out = []
+    for name, params, props, ctor in tbl:
         out.append("class %s<%s> {" % (name, ", ".join(params)))
         for p, t in props:
-            out.append("  public %s$%s;" % ((t + " ") if t else "", p))
+            if p == ctor:
+                out.append("  public function __construct(public %s$%s) {}" % ((t + " ") if t else "", p))
+            else:
+                out.append("  public %s$%s;" % ((t + " ") if t else "", p))
         for p, t in props:
             out.append("  public function put_%s($x) { $this->%s = $x; return 1; }" % (p, p))
+            out.append("  public function chk_%s(%s$x) { return 1; }" % (p, (t + " ") if t else ""))
         out.append("}")
+    return out
+
+
+def factories(histories):
+    """one function per distinct instantiation expression: the same `new` node then runs once per use"""
+    fs, out = {}, []
+    for ops in histories:
+        for o in ops:
+            if o[0] in ("new", "newc", "newraw"):
+                k = (o[0], o[2], tuple(o[3]) if o[0] != "newraw" else ())
+                if k not in fs:
+                    fs[k] = len(fs)
+                    targs = ("<%s>" % ", ".join(k[2])) if o[0] != "newraw" else ""
+                    if o[0] == "newc":
+                        out.append("function mk_%d($v) { return new %s%s($v); }" % (fs[k], k[1], targs))
+                    else:
+                        out.append("function mk_%d() { return new %s%s(); }" % (fs[k], k[1], targs))
+    return fs, out
+
+
+def op_lines(ops, emit, fs):
+    """emit(expr) = statement that records the marker expr"""
+    out = []
     for o in ops:
-        if o[0] == "new":
-            _, var, cls, args = o
-            out.append('try { $o%d = new %s<%s>(); echo "N\\n"; } catch (Throwable $e) { echo "X\\n"; }' % (var, cls, ", ".join(args)))
+        if o[0] in ("new", "newc", "newraw"):
+            var, cls = o[1], o[2]
+            k = (o[0], cls, tuple(o[3]) if o[0] != "newraw" else ())
+            arg = php_val(o[4]) if o[0] == "newc" else ""
+            if fs is not None:
+                ex = "mk_%d(%s)" % (fs[k], arg)
+            else:
+                ex = "new %s%s(%s)" % (cls, ("<%s>" % ", ".join(o[3])) if o[0] != "newraw" else "", arg)
+            out.append('try { $o%d = %s; %s } catch (Throwable $e) { %s }' % (var, ex, emit('"N"'), emit('"X"')))
         elif o[0] == "write":
             _, path, var, p, v = o
             if path == "direct":
@@ -82,10 +128,43 @@ def script(tbl, ops):
                 st = "$o%d->put_%s(%s);" % (var, p, php_val(v))
             else:
                 st = '$nm = "%s"; $o%d->{$nm} = %s;' % (p, var, php_val(v))
-            out.append('try { %s echo "A\\n"; } catch (Throwable $e) { echo "R\\n"; }' % st)
+            out.append('try { %s %s } catch (Throwable $e) { %s }' % (st, emit('"A"'), emit('"R"')))
+        elif o[0] == "call":
+            _, var, p, v = o
+            out.append('try { $o%d->chk_%s(%s); %s } catch (Throwable $e) { %s }' % (var, p, php_val(v), emit('"A"'), emit('"R"')))
         else:
             _, var, p = o
-            out.append('try { echo tag($o%d->%s), "\\n"; } catch (Throwable $e) { echo "T\\n"; }' % (var, p))
+            out.append('try { %s } catch (Throwable $e) { %s }' % (emit("tag($o%d->%s)" % (var, p)), emit('"T"')))
+    return out
+
+
+def script(tbl, ops, factory=False):
+    out = [FIXTURE] + class_decls(tbl)
+    fs = None
+    if factory:
+        fs, fl = factories([ops])
+        out += fl
+    out += op_lines(ops, lambda e: 'echo %s, "\n";' % e, fs)
+    return "\n".join(out) + "\n"
+
+
+def script_conc(tbl, hists, factory=True):
+    """every history is a coroutine on the same VM (same class declarations, same `new` nodes when factory):
+    it waits for the start signal, runs its operations collecting the markers in a string, and hands the string to
+    the main coroutine, which prints them history by history"""
+    out = [FIXTURE] + class_decls(tbl)
+    fs = None
+    if factory:
+        fs, fl = factories(hists)
+        out += fl
+    n = len(hists)
+    out.append("$start = new Channel(%d);\n$done = new Channel(%d);" % (n, n))
+    for k, ops in enumerate(hists):
+        out.append("spawn(function() use ($start, $done) {\n  $start->receive();\n  $r = \"\";")
+        out += ["  " + l for l in op_lines(ops, lambda e: '$r .= %s . "\n";' % e, fs)]
+        out.append('  $done->send("H%d\n" . $r);\n});' % k)
+    out.append("$i = 0; while ($i < %d) { $start->send(1); $i++; }" % n)
+    out.append('$i = 0; while ($i < %d) { echo $done->receive(), "E\n"; $i++; }' % n)
     return "\n".join(out) + "\n"
 
 
@@ -108,8 +187,8 @@ def coq_val(v):
 
 def coq_tbl(tbl):
     items = []
-    for name, params, props in tbl:
-        ps = []
+    for name, params, props, ctor in tbl:
+        ps, ms, ct = [], [], "None"
         for p, t in props:
             if t is None:
                 d = "None"
@@ -118,8 +197,11 @@ def coq_tbl(tbl):
             else:
                 d = "(Some (DConc %s))" % coq_cty(t)
             ps.append('("%s", %s)' % (p, d))
-        items.append('("%s", {| g_params := %s; g_props := %s |})' % (
-            name, coq_list('"%s"' % x for x in params), coq_list(ps)))
+            ms.append('("chk_%s", %s)' % (p, d))
+            if p == ctor:
+                ct = '(Some ("%s", %s))' % (p, d)
+        items.append('("%s", {| g_params := %s; g_props := %s; g_meths := %s; g_ctor := %s |})' % (
+            name, coq_list('"%s"' % x for x in params), coq_list(ps), coq_list(ms), ct))
     return coq_list(items)
 
 
@@ -131,6 +213,12 @@ def coq_ops(ops):
         elif o[0] == "write":
             pa = {"direct": "PDirect", "method": "PMethod", "dyn": "PDyn"}[o[1]]
             res.append('OWrite %s %d%%nat "%s" %s' % (pa, o[2], o[3], coq_val(o[4])))
+        elif o[0] == "call":
+            res.append('OCall %d%%nat "chk_%s" %s' % (o[1], o[2], coq_val(o[3])))
+        elif o[0] == "newc":
+            res.append('ONewC "%s" %s %s' % (o[2], coq_list(coq_cty(a) for a in o[3]), coq_val(o[4])))
+        elif o[0] == "newraw":
+            res.append('ONewRaw "%s"' % o[2])
         else:
             res.append('ORead %d%%nat "%s"' % (o[1], o[2]))
     return coq_list(res)
@@ -182,6 +270,9 @@ def probe_all(tbl_by_name, live, rot):
                 ops.append(("write", PATHS[k % 3], var, p, v))
                 k += 1
             ops.append(("read", var, p))
+            for v in VALS:
+                if v[0] != "n":           # null into a typed parameter is the recorded finding: probed separately
+                    ops.append(("call", var, p, v))
     return ops
 
 
@@ -213,57 +304,138 @@ def enumerated(tier):
     return cases
 
 
-def seeded(rng, n):
+def enumerated_c(tier, rng):
+    """sequences of 1..3 creation events over Box<T> / PBox<T> (promoted constructor parameter): for each argument
+    type {new Box<a> followed by a call chk_v(matching) | the same with a non-matching value | new PBox<a>(matching) |
+    new PBox<a>(non-matching): fails} and a raw `new Box()`; then every live instance is probed (stores of all 7 value
+    kinds, a read, calls with the 6 non-null kinds).  Every second history creates through factory functions.
+    quick: all of length 1-2, 700 sampled of length 3; thorough: all."""
+    tbl = [BOX, PBOX]
+    byn = {c[0]: c for c in tbl}
+    evs = [(k, a) for a in ARGS for k in ("box-ok", "box-bad", "pbox-ok", "pbox-bad")] + [("raw", None)]
+    seqs = [ev for n in (1, 2) for ev in itertools.product(evs, repeat=n)]
+    l3 = list(itertools.product(evs, repeat=3))
+    seqs += l3 if tier != "quick" else rng.sample(l3, 700)
     cases = []
-    for _ in range(n):
-        tbl = rng.choice([[BOX, PAIR], [PAIR], [BOX, CELL], [PAIR, CELL, BOX]])
-        byn = {c[0]: c for c in tbl}
+    for ci, ev in enumerate(seqs):
         ops, live = [], []
-        ninst = rng.randint(2, 6)
-        nwrites = rng.randint(4, 12)
-        plan = ["new"] * ninst + ["w"] * nwrites
-        rng.shuffle(plan)
-        if plan[0] != "new":
-            plan.remove("new")
-            plan.insert(0, "new")
-        for step in plan:
-            if step == "new":
-                c = rng.choice(tbl)
-                pool = ARGS if rng.random() < 0.7 else ARGS_X
-                nargs = len(c[1])
-                r = rng.random()
-                if r < 0.04 and nargs > 1 and live:
-                    nargs -= 1            # too few type arguments: the instantiation fails
-                elif r < 0.08:
-                    nargs += 1            # one too many: ignored
-                args = [rng.choice(pool) for _ in range(nargs)]
-                var = len(live)
-                if nargs >= len(c[1]):
-                    ops.append(("new", var, c[0], args))
+        for k, a in ev:
+            var = len(live)
+            if k == "raw":
+                ops.append(("newraw", var, "Box", []))
+                live.append((var, "Box", []))
+            elif k.startswith("box"):
+                ops.append(("new", var, "Box", [a]))
+                live.append((var, "Box", [a]))
+                ops.append(("call", var, "v", matching_value(a) if k == "box-ok" else other_value(a)))
+            elif k == "pbox-ok":
+                ops.append(("newc", var, "PBox", [a], matching_value(a)))
+                live.append((var, "PBox", [a]))
+            else:
+                ops.append(("newc", 90, "PBox", [a], other_value(a)))
+        ops += probe_all(byn, live, len(ev))
+        cases.append({"tbl": tbl, "ops": ops, "gen": "enumc%d" % len(ev), "factory": ci % 2 == 1})
+    return cases
+
+
+def seeded_ops(rng, tbl, nulls=False):
+    byn = {c[0]: c for c in tbl}
+    ops, live = [], []
+    ninst = rng.randint(2, 6)
+    nwrites = rng.randint(4, 12)
+    plan = ["new"] * ninst + ["w"] * nwrites
+    rng.shuffle(plan)
+    if plan[0] != "new":
+        plan.remove("new")
+        plan.insert(0, "new")
+    for step in plan:
+        if step == "new":
+            c = rng.choice(tbl)
+            pool = ARGS if rng.random() < 0.7 else ARGS_X
+            nargs = len(c[1])
+            r = rng.random()
+            if r < 0.04 and nargs > 1 and live:
+                nargs -= 1            # too few type arguments: the instantiation fails
+            elif r < 0.08:
+                nargs += 1            # one too many: ignored
+            args = [rng.choice(pool) for _ in range(nargs)]
+            var = len(live)
+            if c[3] is not None:
+                # promoted constructor parameter: its declared type under these arguments decides
+                t = dict(c[2])[c[3]]
+                ta = args[c[1].index(t)] if t in c[1] and c[1].index(t) < len(args) else None
+                r2 = rng.random()
+                if ta is None:
+                    v, okc = ("i", 1), False         # too few type arguments: fails whatever the value
+                elif nulls and r2 < 0.15:
+                    v, okc = ("n", None), True       # the code accepts null (recorded finding), the reference does not
+                elif r2 < 0.6:
+                    v, okc = matching_value(ta), True
+                else:
+                    v, okc = other_value(ta), False
+                if nargs >= len(c[1]) and okc:
+                    ops.append(("newc", var, c[0], args, v))
                     live.append((var, c[0], args))
                 else:
-                    ops.append(("new", 90, c[0], args))   # fails; $o90 is never used
+                    ops.append(("newc", 90, c[0], args, v))
+            elif r >= 0.08 and r < 0.14:
+                ops.append(("newraw", var, c[0], []))    # no type arguments at all
+                live.append((var, c[0], []))
+            elif nargs >= len(c[1]):
+                ops.append(("new", var, c[0], args))
+                live.append((var, c[0], args))
             else:
-                var, cls, args = rng.choice(live)
-                c = byn[cls]
-                r = rng.random()
-                if r < 0.08:
-                    p = "zz"              # undeclared member: dynamic property
-                else:
-                    p = rng.choice(c[2])[0]
-                if rng.random() < 0.25:
+                ops.append(("new", 90, c[0], args))   # fails; $o90 is never used
+        else:
+            if not live:
+                continue
+            var, cls, args = rng.choice(live)
+            c = byn[cls]
+            r = rng.random()
+            if r < 0.08:
+                p = "zz"              # undeclared member: dynamic property
+            else:
+                p = rng.choice(c[2])[0]
+            r = rng.random()
+            if r < 0.2:
+                ops.append(("read", var, p))
+            elif r < 0.45 and p != "zz":
+                vs = VALS + [("i", -2), ("s", "k")]
+                if not nulls:
+                    vs = [v for v in vs if v[0] != "n"]
+                ops.append(("call", var, p, rng.choice(vs)))
+            else:
+                # an undeclared member has no put_<p> method in the fixture: direct / dynamic-name only
+                pa = rng.choice(PATHS if p != "zz" else ["direct", "dyn"])
+                ops.append(("write", pa, var, p, rng.choice(VALS + [("i", -2), ("s", "k")])))
+                if rng.random() < 0.5:
                     ops.append(("read", var, p))
-                else:
-                    # an undeclared member has no put_<p> method in the fixture: direct / dynamic-name only
-                    pa = rng.choice(PATHS if p != "zz" else ["direct", "dyn"])
-                    ops.append(("write", pa, var, p, rng.choice(VALS + [("i", -2), ("s", "k")])))
-                    if rng.random() < 0.5:
-                        ops.append(("read", var, p))
-        # final probe of a few live instances
-        rng.shuffle(live)
-        ops += probe_all(byn, sorted(live[:2]), rng.randint(0, 2))
-        cases.append({"tbl": tbl, "ops": ops, "gen": "seeded"})
+    # final probe of a few live instances
+    rng.shuffle(live)
+    ops += probe_all(byn, sorted(live[:2]), rng.randint(0, 2))
+    return ops
+
+
+TABLES = [[BOX, PAIR], [PAIR], [BOX, CELL], [PAIR, CELL, BOX], [BOX, PBOX], [PBOX, PPAIR, PAIR], [PPAIR, BOX]]
+
+
+def seeded(rng, n):
+    cases = []
+    for k in range(n):
+        tbl = rng.choice(TABLES)
+        nulls = rng.random() < 0.04
+        cases.append({"tbl": tbl, "ops": seeded_ops(rng, tbl, nulls), "gen": "seeded-null" if nulls else "seeded",
+                      "factory": k % 2 == 1})
     return cases
+
+
+def conc_groups(rng, n):
+    """3-4 seeded histories over one class table, to be run as coroutines of one VM"""
+    groups = []
+    for k in range(n):
+        tbl = rng.choice(TABLES[3:])
+        groups.append({"tbl": tbl, "hists": [seeded_ops(rng, tbl) for _ in range(rng.randint(3, 4))], "factory": k % 3 != 2})
+    return groups
 
 
 def member_cases():
@@ -281,28 +453,69 @@ def member_cases():
     return cases
 
 
-def run_impl(binary, srcs):
-    inp = "\n".join(json.dumps({"src": s}) for s in srcs) + "\n"
-    p = subprocess.run([binary], input=inp, stdout=subprocess.PIPE, stderr=subprocess.PIPE, text=True, timeout=900)
-    outs = [json.loads(l) for l in p.stdout.splitlines() if l.strip()]
-    return outs, p.returncode, p.stderr
+def run_impl(binary, srcs, workers=6):
+    """the histories are independent (fresh VM each): split over several harness processes"""
+    from concurrent.futures import ThreadPoolExecutor
+    n = max(1, min(workers, len(srcs) // 200 + 1))
+    step = (len(srcs) + n - 1) // n if srcs else 1
+    chunks = [srcs[i:i + step] for i in range(0, len(srcs), step)]
+    def one(chunk):
+        inp = "\n".join(json.dumps({"src": s}) for s in chunk) + "\n"
+        p = subprocess.run([binary], input=inp, stdout=subprocess.PIPE, stderr=subprocess.PIPE, text=True, timeout=900)
+        return [json.loads(l) for l in p.stdout.splitlines() if l.strip()], p.returncode, p.stderr
+    outs, rc, err = [], 0, ""
+    with ThreadPoolExecutor(max_workers=n) as ex:
+        for chunk, (o, r, e) in zip(chunks, ex.map(one, chunks)):
+            if len(o) != len(chunk):
+                return outs + o, r or 1, e
+            outs += o
+            rc, err = rc or r, err + e
+    return outs, rc, err
 
 
 def op_key(o):
-    if o[0] == "new":
-        return "new"
+    if o[0] in ("new", "newraw"):
+        return o[0]
+    if o[0] == "newc":
+        return "newc:%s" % o[4][0]
     if o[0] == "write":
         return "store:%s:%s" % (o[1], o[4][0])
+    if o[0] == "call":
+        return "call:%s" % o[3][0]
     return "read"
+
+
+def norm_op(o):
+    """JSON round trip: value pairs back to tuples"""
+    o = list(o)
+    vi = {"write": 4, "newc": 4, "call": 3}.get(o[0])
+    if vi is not None:
+        o[vi] = tuple(o[vi])
+    return tuple(o)
+
+
+def split_conc(out, n):
+    """stdout of a concurrent script -> per-history marker text (None when malformed)"""
+    res = [None] * n
+    for blk in out.split("E\n"):
+        if not blk.strip():
+            continue
+        head, _, body = blk.partition("\n")
+        if not (head.startswith("H") and head[1:].isdigit()) or int(head[1:]) >= n or res[int(head[1:])] is not None:
+            return None
+        res[int(head[1:])] = body
+    return res if all(r is not None for r in res) else None
 
 
 def main(ck):
     rng = ck.rng
     ck.trusted += [
         "isClassValueInstanceOf (class hierarchy) is a parameter `sub` of every definition and theorem; C08 is about it",
-        "harness/cmd/c19 (Go: vrun.RunString, fresh VM per history) and checks/C19.py (generators, script and Coq term printers, marker parser)",
-        "method dispatch, argument passing into put_<p>($x), echo/tag helper: assumed to deliver values unchanged",
-        "not modelled: inheritance from / of generic classes, default values of typed members, static members, compound assignment, the [] store path on objects (no type check for any class: C07), concurrency (the fixed GetProperty only reads the shared declaration)",
+        "harness/cmd/c19 (Go: vrun.RunString / RunStringSpawn, fresh VM per history or per concurrent group; race reports parsed from the child's stderr) and checks/C19.py (generators, script and Coq term printers, marker parser)",
+        "method dispatch, argument passing into put_<p>($x), echo/tag helper, string concatenation and Channel send/receive of the marker string (concurrent groups): assumed to deliver values unchanged",
+        "concurrency: the theorems quantify over all histories, and every interleaving of operations is a history; interleavings INSIDE one operation are not modelled — for them the evidence is the spawn-based runs under the race detector only",
+        "decl_unchanged is a theorem about the model's get_property; that the Go GetProperty / SetValue paths leave the shared declaration alone is what the tie tests (a mutation that writes it is caught by the tie, see DESIGN)",
+        "not modelled: inheritance from / of generic classes, default values of typed members, static members and static methods with T-typed parameters, compound assignment, the [] store path on objects (no type check for any class: C07), a class with a promoted constructor parameter created without its argument",
     ]
     ck.prove()
     binary, out = ck.go_build("c19")
@@ -310,27 +523,71 @@ def main(ck):
         ck.broken.append("harness-build")
         ck.finish(evaluations=0, distinct_nontrivial=0, rule="harness did not build")
 
+    groups = []
     if ck.replay:
         rp = json.load(open(ck.replay))
         c = rp.get("case") or {}
         cases = [c] if "ops" in c else []
         mcases = [c] if "member" in c else []
+        groups = [c] if "hists" in c else []
         for c in cases:
-            c["tbl"] = [tuple(x) for x in c["tbl"]]
-            c["ops"] = [tuple(tuple(y) if isinstance(y, list) and i == 4 else y for i, y in enumerate(o)) for o in c["ops"]]
+            c["tbl"] = [norm_cls(x) for x in c["tbl"]]
+            c["ops"] = [norm_op(o) for o in c["ops"]]
+        for c in groups:
+            c["tbl"] = [norm_cls(x) for x in c["tbl"]]
+            c["hists"] = [[norm_op(o) for o in h] for h in c["hists"]]
         for c in mcases:
             c["val"] = tuple(c["val"])
     else:
-        cases = enumerated(ck.tier) + seeded(rng, 1500 if ck.tier == "quick" else 30000)
+        cases = enumerated(ck.tier) + enumerated_c(ck.tier, rng) + seeded(rng, 1500 if ck.tier == "quick" else 30000)
         mcases = member_cases()
+        groups = conc_groups(rng, 60 if ck.tier == "quick" else 1500)
 
-    srcs = [script(c["tbl"], c["ops"]) for c in cases] + [c["src"] for c in mcases]
+    srcs = [script(c["tbl"], c["ops"], c.get("factory", False)) for c in cases] + [c["src"] for c in mcases]
     outs, rc, err = run_impl(binary, srcs)
     if len(outs) != len(srcs):
         ck.log("harness returned %d results for %d cases rc=%d\n%s" % (len(outs), len(srcs), rc, err[-2000:]))
         ck.broken.append("harness-run")
         ck.finish(evaluations=len(outs), distinct_nontrivial=0, rule="harness crashed")
     o_h, o_m = outs[:len(cases)], outs[len(cases):]
+
+    # ---- concurrently: every group three times (different schedules) on the -race build, in a child process
+    REPS = 3
+    races, conc_units = {}, 0
+    if groups:
+        racebin, out2 = ck.go_build("c19", race=True)
+        if racebin is None:
+            ck.broken.append("harness-build-race")
+            ck.finish(evaluations=0, distinct_nontrivial=0, rule="-race harness did not build")
+        gsrcs = [script_conc(g["tbl"], g["hists"], g.get("factory", True)) for g in groups]
+        inp = "".join(json.dumps({"src": s_, "spawn": True}) + "\n" for s_ in gsrcs for _ in range(REPS))
+        pr = subprocess.run([racebin, "conc"], input=inp, stdout=subprocess.PIPE, stderr=subprocess.PIPE, text=True, timeout=1500)
+        gl = [json.loads(l) for l in pr.stdout.splitlines() if l.strip()]
+        tail = gl[-1] if gl and "races" in gl[-1] else None
+        gouts = [x for x in gl if "outcome" in x]
+        if tail is None or len(gouts) != len(gsrcs) * REPS:
+            ck.log("concurrent run: %d results for %d scripts rc=%d\n%s" % (len(gouts), len(gsrcs) * REPS, pr.returncode, pr.stderr[-2000:]))
+            ck.broken.append("harness-run:conc")
+            if tail and tail.get("fatal"):
+                ck.violation("conc:fatal", {"impl_out": tail, "clause": "the interpreter died while histories ran concurrently"})
+        else:
+            races = tail.get("races") or {}
+            for gi, g in enumerate(groups):
+                for r in range(REPS):
+                    o = gouts[gi * REPS + r]
+                    parts = split_conc(o["out"], len(g["hists"])) if o["outcome"] == "ok" else None
+                    if parts is None:
+                        ck.violation("impl-error:conc:%s" % o["outcome"], {"case": g, "impl_out": o, "script": gsrcs[gi],
+                                                                         "clause": "concurrent script did not run to completion"})
+                        continue
+                    for hi, body in enumerate(parts):
+                        cases.append({"tbl": g["tbl"], "ops": g["hists"][hi], "gen": "conc", "group": g, "hist": hi})
+                        o_h.append({"out": body, "outcome": "ok"})
+                        srcs.append(gsrcs[gi])
+                        conc_units += 1
+    for pair, n in sorted(races.items()):
+        ck.violation("race:" + pair.replace(" ", ""), {"race": pair, "reports": n,
+                                                        "clause": "data race between histories run as coroutines of one VM (-race)"})
 
     terms, idx = [], []
     for i, (c, o) in enumerate(zip(cases, o_h)):
@@ -342,6 +599,7 @@ def main(ck):
         terms.append("(%s, %s, %s)" % (coq_tbl(c["tbl"]), coq_ops(c["ops"]), coq_list(seen)))
         idx.append(i)
     bad = ck.eval_cases("cases", HEADER, terms, "check_case", shard=500)
+    NULLKEY = {"call:n": "member=method-param:n", "newc:n": "member=ctor-promoted:n"}
     for j, cls in sorted(bad.items(), key=lambda kv: len(cases[idx[kv[0]]]["ops"])):
         i = idx[j]
         c, o = cases[i], o_h[i]
@@ -349,16 +607,21 @@ def main(ck):
         pos_m = next((x - 2000 for x in cls if x >= 2000), None)
         pos = pos_s if pos_s is not None else pos_m
         what = op_key(c["ops"][pos]) if pos is not None and pos < len(c["ops"]) else "length"
-        rep = {"case": c, "impl_out": o["out"].split("\n"), "script": srcs[i], "first_difference_at_op": pos,
+        conc = c.get("gen") == "conc"
+        rc_ = c["group"] if conc else c
+        rep = {"case": rc_, "impl_out": o["out"].split("\n"), "script": srcs[i], "first_difference_at_op": pos,
                "op": c["ops"][pos] if pos is not None and pos < len(c["ops"]) else None}
+        if conc:
+            rep["history"] = c["hist"]
+        pre = "conc:" if conc else "history:"
         if 2 in cls:
-            rep["clause"] = "own_args_only / history_refines_spec: the implementation differs from the reference semantics"
-            ck.violation("history:%s" % what, rep)
+            rep["clause"] = "own_args_only / call_own_args_only / history_refines_spec: the implementation differs from the reference semantics"
+            ck.violation(NULLKEY.get(what) or (pre + what), rep)
         if 1 in cls:
             ck.broken.append("correspondence:C19.history")
             if 2 not in cls:
                 rep["clause"] = "model vs implementation (tie)"
-                ck.violation("tie:%s" % what, rep)
+                ck.violation("tie:%s%s" % ("conc:" if conc else "", what), rep)
 
     mterms = []
     for c, o in zip(mcases, o_m):
@@ -383,11 +646,13 @@ def main(ck):
     nontriv = 0
     dist, lens, ninst = {}, {}, {}
     for c in cases:
+        if c.get("gen") == "conc":
+            continue
         key = json.dumps([c["tbl"], c["ops"]], sort_keys=True, default=str)
         if key in distinct:
             continue
         distinct.add(key)
-        news = [o for o in c["ops"] if o[0] == "new"]
+        news = [o for o in c["ops"] if o[0] in ("new", "newc", "newraw")]
         argsets = set(tuple(o[3]) for o in news)
         writes = [o for o in c["ops"] if o[0] == "write"]
         if len(argsets) >= 2 and writes:
@@ -403,11 +668,21 @@ def main(ck):
     ck.cov["instantiations_per_history"] = ninst
     ck.cov["generators"] = {g: sum(1 for c in cases if c.get("gen") == g) for g in sorted(set(c.get("gen") for c in cases))}
     ck.cov["member_probes"] = len(mcases)
+    ck.cov["histories_through_factory_functions"] = sum(1 for c in cases if c.get("factory"))
+    ck.cov["concurrent"] = {"groups": len(groups), "runs_per_group": REPS, "histories_compared": conc_units,
+                            "histories_per_group": sorted(set(len(g["hists"]) for g in groups)), "race_reports": races}
     ck.finish(level="proof", evaluations=len(cases) + len(mcases), distinct_nontrivial=nontriv,
               rule="histories: every sequence of 1..4 instantiations of Box<T> over {int,string,array,A}, after each `new` "
                    "optionally an immediate store (matching / non-matching value; at length 4 in the quick tier only none/matching), "
                    "then every live instance probed with all 7 value kinds through rotating store paths plus a read; "
                    "seeded histories over 1-3 generic classes with 1-2 parameters, 2-6 instantiations (incl. too few / too many "
-                   "arguments) and 4-12 stores/reads; non-trivial = distinct history with at least two different instantiations "
+                   "arguments, without type arguments, with a promoted constructor parameter given a matching / non-matching value) and 4-12 "
+                   "stores/reads/calls of chk_p(<declared type> $x); every probe also calls chk_p with the 6 non-null value kinds; "
+                   "enumc: every sequence of 1-2 (quick: +700 sampled of 3, thorough: all of 3) creation events over Box<T>/PBox<T> "
+                   "{new+matching call, new+non-matching call, ctor matching, ctor non-matching} x 4 argument types + raw new; every second "
+                   "history creates through factory functions (one `new` node executed several times); 4% of the seeded histories give null "
+                   "to a typed parameter (recorded findings); concurrently: groups of 3-4 seeded histories spawned as coroutines of one VM "
+                   "behind a start barrier, 3 runs per group under -race, every history compared with the model of that history alone; "
+                   "non-trivial = distinct history with at least two different instantiations "
                    "and at least one store; member probes: T-typed method parameter and promoted constructor parameter x 6 argument types x 7 value kinds",
               traces=len(terms) + len(mterms))
